@@ -1,12 +1,14 @@
 #!/bin/bash
 # harmless.sh <dir-with-diffs> <checks...>: applies each behaviour-preserving change (*.diff) to
 # /repo, runs the given quick checks, reverts.  Any exit code other than 0 is a false alarm
-# (or trouble) to look into.  /repo must not be used by anything else meanwhile.
+# (or trouble) to look into.  /repo must not be used by anything else meanwhile; with VERIF_REPO
+# set (a scratch checkout, e.g. the snapshot of `vp run --with-repo`) that one is used instead.
 set -u
-D=$1; shift
-cd /verif
+D=$(cd "$1" && pwd); shift
+cd "$(dirname "$0")/.."
+REPO=${VERIF_REPO:-/repo}
 for f in $D/*.diff; do
-  if ! git -C /repo apply $f 2>/dev/null; then echo "$f: does not apply"; continue; fi
+  if ! git -C $REPO apply $f 2>/dev/null; then echo "$f: does not apply"; continue; fi
   res=""
   for c in "$@"; do
     out=$(VERIF_KEEP_EVIDENCE=1 ./bin/verifctl check $c --tier quick 2>&1); rc=$?
@@ -16,7 +18,7 @@ for f in $D/*.diff; do
       echo "$out" > $f.$c.log
     fi
   done
-  git -C /repo checkout -- .
-  rm -f /verif/replays/*.json
+  git -C $REPO checkout -- .
+  rm -f replays/*.json
   echo "$f:${res:- all quiet}"
 done
